@@ -6,6 +6,13 @@ import RsomeV.Drv.Curv
 import RsomeV.Drv.NdArray
 import RsomeV.Drv.AtomsSoc
 import RsomeV.Drv.AtomsExp
+import RsomeV.Drv.IPCone
+import RsomeV.Drv.IPConeEnc
+import RsomeV.Drv.Export
+import RsomeV.Drv.Dro
+import RsomeV.Drv.Solvers
+import RsomeV.Drv.DualCert
+import RsomeV.Drv.SocApprox
 open Lean
 namespace RsomeV.Drv
 /-- every operation of the line protocol -/
@@ -33,9 +40,18 @@ def dispatch (op : String) (j : Json) : Except String Json :=
   | "nd_diag" => opNdDiag j
   | "atom_encode" =>
       (match fldD j "xtype" Json.null with
-       | .str x => if x ∈ ["A", "M", "I", "E", "S", "Q"] then opAtomEncode j else opAtomEncodeExp j
+       | .str x => if x ∈ ["A", "M", "I", "E", "S", "Q"] then opAtomEncode j
+                   else if x ∈ ["G", "T", "C"] then opAtomEncodeIPC j else opAtomEncodeExp j
        | _ => opAtomEncodeExp j)
   | "atoms_exp_encode" => opAtomsExpEncode j
+  | "ipcone" => opIPCone j
+  | "lp_render" => opLpRender j
+  | "mix_support" => opMixSupport j
+  | "iface_data" => opIfaceData j
+  | "iface_status" => opIfaceStatus j
+  | "dual_compile" => opDualCompile j
+  | "dual_readback" => opDualReadback j
+  | "to_socp" => opToSocp j
   | "rsocone_encode" => opRsoconeEncode j
   | "fold_bounds" => opFoldBounds j
   | "vtype_vector" => opVtypeVector j
